@@ -159,14 +159,41 @@ Definition min_live (nxt : N) (ix : index) : N :=
 Definition dead (m : mem) : mem :=
   mkMem (mclosed m) true (mrepair m) None (mnext m) (mseq m) (mpruned m) (msince m) (mpend m) (midx m).
 
-(* the part of flushLocked after ensureWriter, for a non-empty pending batch *)
-Definition flush_body (d : disk) (m : mem) (o : fout) : disk * mem * res :=
-  (* ensureWriter *)
-  let '(d1, cur, nxt) :=
-    match mcur m with
-    | Some n => (d, n, mnext m)
-    | None => (with_files d (dfiles d ++ [mkFile (mnext m) [] false]), mnext m, mnext m + 1)
-    end in
+Definition fin (o : fout) (dd : disk) (mm : mem) : disk * mem * res :=
+  match o with FOk => (dd, mm, ROk) | _ => (dd, dead mm, RCrash true) end.
+
+(* flushLocked after appendSync returned (the record is synced): index update, then
+   removeObsoleteWALFiles. [landed] is the disk with the record in file [cur]. *)
+Definition commit_core (landed : disk) (cur nxt : N) (m : mem) (o : fout) : disk * mem * res :=
+  let '(ix, p) := fold_left apply_rec (map (fun r => (cur, r)) (mpend m)) (midx m, mpruned m) in
+  let sq := mseq m + N.of_nat (length (mpend m)) in
+  let np := count_prunes (mpend m) in
+  let since := msince m + np in
+  let m2 s c := mkMem false false false c nxt sq p s [] ix in
+  if (np =? 0) || (since <? cleanup_interval) then fin o landed (m2 since (Some cur))
+  else
+    match o with
+    | FCrash CPFull => (landed, dead (m2 since (Some cur)), RCrash true)
+    | FCrash CPWmTmp => (mkDisk (dfiles landed) (dwm landed) true, dead (m2 since (Some cur)), RCrash true)
+    | _ =>
+      let d3 := mkDisk (dfiles landed) (Some p) false in
+      match o with
+      | FCrash CPWmRen => (d3, dead (m2 since (Some cur)), RCrash true)
+      | FCrash CPRotTorn => (with_files d3 (upd_file (dfiles d3) cur set_torn), dead (m2 since None), RCrash true)
+      | FCrash CPRot => (d3, dead (m2 since None), RCrash true)
+      | _ =>
+        let ml := min_live nxt ix in
+        let keep (f : file) :=
+          match o with
+          | FCrash (CPDel gone) => negb ((fnum f <? ml) && memN (fnum f) gone)
+          | _ => negb (fnum f <? ml)
+          end in
+        fin o (with_files d3 (filter keep (dfiles d3))) (m2 0 None)
+      end
+    end.
+
+(* flushLocked for a non-empty pending batch once the writer (file [cur] of [d1]) exists *)
+Definition flush_core (d1 : disk) (cur nxt : N) (m : mem) (o : fout) : disk * mem * res :=
   let m1 := mkMem false false false (Some cur) nxt (mseq m) (mpruned m) (msince m) (mpend m) (midx m) in
   let landed := with_files d1 (upd_file (dfiles d1) cur (add_batch (mseq m, mpend m))) in
   let torn := with_files d1 (upd_file (dfiles d1) cur set_torn) in
@@ -179,36 +206,14 @@ Definition flush_body (d : disk) (m : mem) (o : fout) : disk * mem * res :=
   | FFail WNone false => (d1, writer_gone true, RFail false)
   | FFail WPartial false => (torn, writer_gone true, RFail false)
   | FFail WFull false => (landed, writer_gone true, RFail true)
-  | _ =>
-    (* committed: appendSync returned *)
-    let '(ix, p) := fold_left apply_rec (map (fun r => (cur, r)) (mpend m)) (midx m, mpruned m) in
-    let sq := mseq m + N.of_nat (length (mpend m)) in
-    let np := count_prunes (mpend m) in
-    let since := msince m + np in
-    let m2 s c := mkMem false false false c nxt sq p s [] ix in
-    let fin (dd : disk) (mm : mem) :=
-      match o with FOk => (dd, mm, ROk) | _ => (dd, dead mm, RCrash true) end in
-    if (np =? 0) || (since <? cleanup_interval) then fin landed (m2 since (Some cur))
-    else
-      match o with
-      | FCrash CPFull => (landed, dead (m2 since (Some cur)), RCrash true)
-      | FCrash CPWmTmp => (mkDisk (dfiles landed) (dwm landed) true, dead (m2 since (Some cur)), RCrash true)
-      | _ =>
-        let d3 := mkDisk (dfiles landed) (Some p) false in
-        match o with
-        | FCrash CPWmRen => (d3, dead (m2 since (Some cur)), RCrash true)
-        | FCrash CPRotTorn => (with_files d3 (upd_file (dfiles d3) cur set_torn), dead (m2 since None), RCrash true)
-        | FCrash CPRot => (d3, dead (m2 since None), RCrash true)
-        | _ =>
-          let ml := min_live nxt ix in
-          let keep (f : file) :=
-            match o with
-            | FCrash (CPDel gone) => negb ((fnum f <? ml) && memN (fnum f) gone)
-            | _ => negb (fnum f <? ml)
-            end in
-          fin (with_files d3 (filter keep (dfiles d3))) (m2 0 None)
-        end
-      end
+  | _ => commit_core landed cur nxt m o
+  end.
+
+(* ensureWriter, then the above *)
+Definition flush_body (d : disk) (m : mem) (o : fout) : disk * mem * res :=
+  match mcur m with
+  | Some n => flush_core d n (mnext m) m o
+  | None => flush_core (with_files d (dfiles d ++ [mkFile (mnext m) [] false])) (mnext m) (mnext m + 1) m o
   end.
 
 Definition flush (d : disk) (m : mem) (o : fout) : disk * mem * res :=
